@@ -102,6 +102,18 @@ def marshal(
         try:
             # send next byte into processor
             event = processor.send(byte)
+        except StopIteration as stop:
+            # the processor is done after consuming this byte (e.g. the padding of a too short region)
+            _size, obj = stop.value
+            bytes_remaining = bytes(buffer_iter)
+            if bytes_remaining:
+                error = InputStreamSuperfluousBytesError(
+                    bytes_remaining=bytes_remaining, command_code=command_code
+                )
+                if abort_on_error:
+                    raise error
+                yield WarningEvent(error=error)
+            return obj
         except ConstraintViolatedError as error:
             # TODO code is redundant
             error.set_bytes_remaining(buffer_iter)
